@@ -807,13 +807,22 @@ class Array(Tuple):
         super().__init__(*values)
         self.original_value = list(values)
 
+    @classmethod
+    def _holds_node(cls, values: Any) -> bool:
+        # (nested lists and tuples are searched as well: [[1, column], [2, 3]])
+        return any(
+            isinstance(value, Node)
+            or (isinstance(value, (list, tuple)) and cls._holds_node(value))
+            for value in values
+        )
+
     def get_sql(self, ctx: SqlContext) -> str:
         # only an array of plain values can travel as one parameter; with a column or expression among
         # its elements it is rendered element by element (each value then gets its own placeholder)
         if (
             ctx.parameterizer is None
             or not ctx.parameterizer.should_parameterize(self.original_value)
-            or any(isinstance(value, Node) for value in self.original_value)
+            or self._holds_node(self.original_value)
         ):
             element_ctx = ctx.copy(with_alias=False)
             values = ",".join(term.get_sql(element_ctx) for term in self.values)
